@@ -10,6 +10,7 @@ import (
 	"os"
 	"runtime/debug"
 	"strings"
+	"sync/atomic"
 	"testing"
 	"testing/synctest"
 	"time"
@@ -118,9 +119,21 @@ func runOnce(t *testing.T, e *Engine, ch *Choices, cfg *RunCfg) (o *Outcome) {
 	}
 	synctest.Test(t, func(t *testing.T) {
 		o = e.Run(ch, cfg)
+		if o.Fatal {
+			// a goroutine is stuck inside the library and cannot be released; a bubble cannot end with
+			// blocked goroutines, so the verdict is written and the process exits from inside
+			fatalExit(o, ch)
+		}
 	})
+	if o.post != nil {
+		o.post(o)
+		o.post = nil
+	}
 	return o
 }
+
+// fatalExit is installed by TestWorker: it records the outcome of a run that cannot return.
+var fatalExit func(o *Outcome, ch *Choices)
 
 func TestWorker(t *testing.T) {
 	raw := os.Getenv("VF_ARGS")
@@ -175,11 +188,41 @@ func TestWorker(t *testing.T) {
 		os.Exit(code)
 	}
 
+	var curIdx int64
+	// real-time hang monitor (outside any bubble): a run that makes no progress for 60 s of wall time
+	// is stuck somewhere the fake clock cannot see (a non-durable block or a statement-free spin)
+	var beat atomic.Int64
+	go func() {
+		last, since := int64(-1), time.Now()
+		for {
+			time.Sleep(2 * time.Second)
+			if b := beat.Load(); b != last {
+				last, since = b, time.Now()
+			} else if time.Since(since) > 60*time.Second {
+				fmt.Fprintf(os.Stderr, "worker: HANG run=%d: no progress for 60 s of wall time\n", curIdx)
+				os.Exit(5)
+			}
+		}
+	}()
+	fatalExit = func(o *Outcome, ch *Choices) {
+		v := &Violation{Property: a.Prop, Class: o.Class, Key: o.Key, Detail: o.Detail, Seed: a.Seed, Run: curIdx, Tier: a.Tier,
+			Extra: map[string]string{"kills": "1"}, Trace: append([]uint64(nil), ch.Trace...), Fp: o.Fingerprint}
+		res.Violation = v
+		res.Outcome = o
+		res.Runs++
+		if a.Mode == "shrink" {
+			finish(4) // the shrinker cannot continue in this process
+		}
+		finish(3)
+	}
+
 	switch a.Mode {
 	case "explore":
 		known := loadKnown(a.Known, a.Prop)
 		for j := int64(0); j < a.Count; j++ {
 			idx := a.From + j*a.Stride
+			curIdx = idx
+			beat.Add(1)
 			announce(idx)
 			ch := NewChoices(a.Seed, idx)
 			o := runOnce(t, e, ch, cfg)
@@ -238,6 +281,8 @@ func TestWorker(t *testing.T) {
 		cfg.Tier = v.Tier
 		if a.Mode == "replay" {
 			cfg.Pin = v.Pin
+			curIdx = v.Run
+			a.Seed = v.Seed
 			announce(v.Run)
 			ch := ReplayChoices(v.Trace)
 			if v.Extra != nil && v.Extra["regen"] == "1" {
@@ -278,6 +323,7 @@ func TestWorker(t *testing.T) {
 			}
 		}
 		test := func(tr []uint64) (string, []uint64) {
+			beat.Add(1)
 			ch := ReplayChoices(tr)
 			o := runOnce(t, e, ch, cfg) // no pin: any fault of the enumeration may witness the class
 			if o.Class == v.Class {
